@@ -30,6 +30,9 @@ type ivar struct {
 	scratch   bool   // BPtr known to point to a scratch big integer (may be written through)
 	cellOwner string // BPtr known to be &X.Coeff for the cell X
 	addrParam bool   // a local Decimal standing for a non-nil *Decimal parameter (variants)
+	readOnly  bool   // … that must not be assigned (it is not returned)
+	ctxAlias  string // an ErrDecimal: the local context whose pointer it holds
+	ifInit    bool   // declared by the initialiser of an `if` (its Go scope is that statement)
 	ver       int
 	depth     int // block nesting depth at which the variable was declared
 }
@@ -66,6 +69,8 @@ type itr struct {
 	nloops    int
 	depth     int    // current block nesting depth
 	loopBreak func() // inside a `for` body: emits the loop exit
+	inAux     int    // > 0 while the body of an auxiliary function is being translated
+	nparts    int
 }
 
 func (t *itr) fail(format string, a ...interface{}) string {
@@ -115,6 +120,9 @@ func (t *itr) bind(p string) string {
 // define (re)binds a Go local as a Lean `let`.
 func (t *itr) define(name string, c cat, k vkind, val string) {
 	v := t.env.vars[name]
+	if v != nil && v.readOnly {
+		t.fail("assignment to the read-only local %s", name)
+	}
 	if v == nil {
 		if tmpNameRe.MatchString(name) {
 			t.fail("local name %s clashes with generated names", name)
@@ -127,6 +135,8 @@ func (t *itr) define(name string, c cat, k vkind, val string) {
 	v.assigned = true
 	ty := leanOf(c)
 	switch k {
+	case vCell:
+		ty = "Cell"
 	case vSrc:
 		ty = "Src"
 	case vBPtr:
@@ -184,6 +194,11 @@ func (t *itr) decRef(e ast.Expr) decRef {
 		t.fail("address of %s", exprString(e))
 		return decRef{}
 	}
+	if call, ok := e.(*ast.CallExpr); ok && identName(call.Fun) == "New" && len(call.Args) == 2 {
+		if lit, ok := newDecLit(call, t.fn); ok {
+			return decRef{"const", lit, true}
+		}
+	}
 	id, ok := e.(*ast.Ident)
 	if !ok {
 		t.fail("decimal expression %s", exprString(e))
@@ -239,6 +254,9 @@ func (t *itr) asSrc(r decRef, what string) string {
 	case "src":
 		return r.name
 	case "const":
+		return "(Src.const " + r.name + ")"
+	case "local":
+		// a local Decimal that is only read through this pointer: its value
 		return "(Src.const " + r.name + ")"
 	}
 	return t.fail("%s: %s decimal where an operand pointer is needed", what, r.kind)
